@@ -36,14 +36,14 @@ def _hdr(t):
 RANGE = ("match res { Ok(expr::Value::Integer(b)) => in_range(typ, b.val()), Ok(expr::Value::FailedConstraint(_)) => true, _ => true }")
 
 check_arg = Fn(
-    FI, "check_and_constrain_argument", slot="resolver", ret="res", props=["C04", "C03"],
+    FI, "check_and_constrain_argument", slot="resolver", ret="res", props=["C04", "C01", "C03"],
     requires=[C("not_a_subrule_parameter", "!(typ is RuledefRef)", ["C03"])],
     ensures=[
         C("unspecified_is_identity", "typ is Unspecified && value is Integer ==> res == Ok::<expr::Value, ()>(value)", ["C04"]),
         C("accept_iff_in_range",
           "value is Integer && type_size(typ) is Some ==> "
           "(if in_range(typ, value->Integer_0.val()) { res is Ok && res->Ok_0 is Integer && res->Ok_0->Integer_0.val() == value->Integer_0.val() && res->Ok_0->Integer_0.size == type_size(typ) }"
-          " else { res is Ok && res->Ok_0 is FailedConstraint })", ["C04"],
+          " else { res is Ok && res->Ok_0 is FailedConstraint })", ["C04", "C01"],
           guard="type_size(typ) is Some ==> type_size(typ)->0 >= 1", finding="D7"),
         C("never_truncates", "res is Ok && res->Ok_0 is Integer && value is Integer ==> res->Ok_0->Integer_0.val() == value->Integer_0.val()", ["C04"]),
         C("err_is_loud", "res is Err ==> final(report).msgs() > old(report).msgs()", ["C03"]),
@@ -77,6 +77,6 @@ UNIT = Unit(
           itemref_items("util") + [
            Type("src/asm/defs/ruledef.rs", "enum", "RuleParameterType", slot="asm", derive="Clone, Copy"),
            check_arg, check_val],
-    serves=["C04", "C03"],
+    serves=["C04", "C01", "C03"],
     description="typed argument range predicates (asm::resolver::instruction)",
 )
